@@ -18,7 +18,7 @@ CFG = dict(
               "+ differential run with single-rule-breaking mutations after every prefix of accepted honest traffic, independent rule oracle on the real objects",
     lean=["Ssv.Props.C09"],
     engines=[dict(harness="validation", driver="m_validation", args=["-mode", "c09"], case_delim="reset",
-                  n_quick=110, n_thorough=2000, thorough_seeds=2, n_search=600, search_seeds=3),
+                  n_quick=80, n_thorough=2000, thorough_seeds=2, n_search=600, search_seeds=3),
              # thorough tier only: concurrent calls for the same / different ids under the Go race detector (the engine builds the
              # race-instrumented harness itself), sequential Lean model as linearizability oracle of the verdict multisets
              dict(harness="validationrace", driver="m_validation", case_delim=None, n_quick=0, n_thorough=150, thorough_seeds=2, n_search=0, search_seeds=0)],
